@@ -3,6 +3,7 @@ import Poulpy.Model.HalSpec
 import Poulpy.Model.VecNorm
 import Poulpy.Model.Ring
 import Poulpy.Model.Core.Basic
+import Poulpy.Model.Core.Ks
 
 /-!
 External products and CMux (`poulpy-core/src/external_product/{glwe,gglwe,ggsw}.rs`,
@@ -64,8 +65,7 @@ def dftAddAssignAll (d : Hal.Buf) (t : Hal.Buf) : Hal.Buf :=
 limbs skipped by the `di = 0` product start from zero) -/
 def zeroTail (b : Hal.Buf) (written full : Nat) : Hal.Buf :=
   let b' := { b with size := full }
-  (List.range b'.cols).foldl (fun (acc : Hal.Buf) c =>
-    acc.setAct c ((acc.act c).take written ++ List.replicate (full - written) (Hal.zeroP acc.n))) b'
+  (List.range b'.cols).foldl (fun (acc : Hal.Buf) col => Ks.zeroFrom acc col written) b'
 
 /-- one pass `di` of the `dsize > 1` loop of `glwe_external_product_internal`; state = `(res_dft, res_dft_tmp)` -/
 def epDigitPass (a : Hal.Buf) (g : EpGGSW) (aSize : Nat) (st : Hal.Buf × Hal.Buf) (di : Nat) : Hal.Buf × Hal.Buf :=
